@@ -162,11 +162,22 @@ def r3_frames(rule, root=None):
             else:
                 rule.bad("frames|affine-target", "the RemapAffine arm must push Down(target) last", A.where(fn, arm))
     # the matrix may be deferred onto the affine stack only when the target is itself an affine remap
-    defer = [i for i in A.find(fn["body"], "If") if any(str(A.ftxt(s)).startswith("%s.push(" % affine_n) for s in i["then"]["stmts"])]
+    # (the push may sit in the then-branch of `if matches!(..)` or in the else-branch of `if !matches!(..)`)
+    defer = []
+    for i in A.find(fn["body"], "If"):
+        c_ = A.strip(i["cond"])
+        neg_ = False
+        while c_.get("k") == "Unary" and c_.get("op") == "!":
+            neg_ = not neg_
+            c_ = A.strip(c_["e"])
+        branch = i.get("else") if neg_ else i["then"]
+        if branch is not None and any(str(A.ftxt(s)).startswith("%s.push(" % affine_n) for s in A.stmts_of(branch)):
+            defer.append((i, c_))
     if len(defer) != 1:
         rule.lost("the `if matches!(target, RemapAffine)` deferral in Context::import")
     else:
-        c = A.strip(defer[0]["cond"])
+        c = defer[0][1]
+        defer = [defer[0][0]]
         vs = set()
         if c.get("k") == "Macro" and c["name"] == "matches" and c.get("pat") is not None:
             for p in A.flatten_or(c["pat"]):
